@@ -637,7 +637,9 @@ class Exec:
                                            a['conn'].failed or a['conn'].server_closed)
                and a['conn'] is not s.main_ws for a in s.upg_attempts):
             s.multi_upg = True
-        s.upg = conn
+        if not (a.get('stale_after') and s.upg is not None):
+            s.upg = conn        # (stale_after: the new socket stays silent, the handshake that
+                                # is under way on the current one goes on)
         s.upg_attempts.append({'conn': conn, 'frames': [], 't': self.now,
                                'step': len(self.actions),
                                'unsettled': not a.get('settle', True),
@@ -1210,7 +1212,8 @@ class Drawer:
                    if x.upg is not None and not x.upg.done and x.main_ws is None]
             if not cur:
                 return None
-            return {'op': 'upg_connect', 's': cur[self.draw(st.integers(0, len(cur) - 1))]}
+            return {'op': 'upg_connect', 's': cur[self.draw(st.integers(0, len(cur) - 1))],
+                    'stale_after': True}
         return {'op': 'upg_swap', 's': cand[self.draw(st.integers(0, len(cand) - 1))]}
 
     def a_probe_step(self):
@@ -1416,9 +1419,10 @@ class Drawer:
             hdrs.append(['Origin', d(st.sampled_from(['http://localhost', 'http://evil.example',
                                                       '', 'http://b\u00fccher.example',
                                                       'http://\u2603.example']))])
-        if d(st.integers(0, 4)) == 0:
+        proxy = self.profile.get('proxy_headers', False)
+        if proxy and d(st.integers(0, 4)) == 0:
             hdrs.append(['Host', d(st.sampled_from(['localhost', 'app.example.com:8080']))])
-        if d(st.integers(0, 5)) == 0:
+        if proxy and d(st.integers(0, 5)) == 0:
             # what a reverse proxy adds (with or without passing a Host header on)
             k = d(st.sampled_from(['proto', 'host', 'both']))
             if k in ('proto', 'both'):
